@@ -102,6 +102,17 @@ def shared_inner_cases(rng, n, mk, items=None):
     return cases
 
 
+def contains_op(pipe, name):
+    for op in pipe:
+        if op.get('op') == name:
+            return True
+        if 'inner' in op and contains_op(op['inner'], name):
+            return True
+        if 'branches' in op and any(contains_op(b, name) for b in op['branches']):
+            return True
+    return False
+
+
 def rand_lifetimes(rng, nkeys, maxlen, vals=(-2, -1, 0, 1, 2, 3, 4), reuse=0.3, idxs=(0, 1, 2, 5, 9)):
     lts = []
     used = rng.sample(list(idxs), min(nkeys, len(idxs)))
@@ -1805,13 +1816,17 @@ def main(prop):
                 c['sibling'] = True
             # and some are preceded by a warm-up subscription of the same piped observable that
             # is disposed with keys still open (what it received is a prefix of the events)
-            if c.get('mode') == 'mux' and 'multi' not in c and len(c['src']) > 2 and rng.random() < 0.15 \
+            if c.get('mode') == 'mux' and 'multi' not in c and len(c['src']) > 2 and rng.random() < 0.2 \
                     and not c.get('stateful_fn'):     # (a user function with a memory would remember the warm-up)
                 evs = [e for e in c['src'] if e.get('t') in ('c', 'n', 'd', 'e')]
                 c['warmup'] = evs[:rng.randint(1, len(evs))]
                 # ... or, half of the time, by an earlier application of the same operator
                 # objects to another source (with its own store), which has completed
                 c['reapply'] = rng.random() < 0.5
+                # ... or (a third of the others) the first subscription runs to its completion
+                # (not for pipelines with a tee_map: it is built on RxPY's publish(), whose Subject
+                # is created when the operator is applied and ends with the first completion)
+                c['warmup_completes'] = not c['reapply'] and rng.random() < 0.35 and not contains_op(c['pipe'], 'tee')
         stats = {}
         traces = MC.judge(V, cases, P['relevant'], stats, family=prop,
                           isolation=MC.tee_branches_alone if prop == 'C08' else None)
